@@ -160,6 +160,15 @@ func genFeatureCfgs(rc *RC, label string) []fcfg {
 		f.nec = bits[ch.Int(label, 4)]
 		f.add = bits[ch.Int(label, 4)]
 		f.proh = bits[ch.Int(label, 4)] &^ f.nec
+		// the kind of stream is a prerequisite like any other bit: features for server-to-server streams only, or
+		// for client-to-server streams only
+		if ch.Chance(label, 1, 6) {
+			if ch.Chance(label, 1, 2) {
+				f.nec |= xmpp.S2S
+			} else {
+				f.proh |= xmpp.S2S
+			}
+		}
 		f.req = ch.Chance(label, 1, 2)
 		f.restart = ch.Chance(label, 1, 3)
 		f.info = ch.Chance(label, 1, 6)
@@ -194,6 +203,13 @@ func runC01(rc *RC) {
 	class := ch.Int("workload", 3) // 0 real initiator + real receiver, 1 initiator vs scripted receiver, 2 receiver vs scripted initiator
 	ws := ch.Chance("workload", 1, 4)
 	init0 := []xmpp.SessionState{0, xmpp.Secure, xmpp.Secure | xmpp.Authn}[ch.Int("workload", 3)]
+	// server-to-server streams where one end is scripted (a real receiver refuses every real s2s initiator, see DESIGN.md)
+	s2s := class != 0 && !ws && ch.Chance("workload", 1, 4)
+	contentNS := "jabber:client"
+	if s2s {
+		init0 |= xmpp.S2S
+		contentNS = "jabber:server"
+	}
 	if ch.Chance("workload", 1, 2) {
 		rc.Net.Chunk = func() int { return 1 + ch.Int("net", 80) }
 	}
@@ -242,6 +258,9 @@ func runC01(rc *RC) {
 		return xmpp.NewNegotiator(cfgf)
 	}
 	origin := jid.MustParse("me@example.net")
+	if s2s {
+		origin = jid.MustParse("a.example")
+	}
 	var cSess, sSess *xmpp.Session
 	var cErr, sErr error
 	cDone, sDone := class == 2, class == 1
@@ -249,7 +268,11 @@ func runC01(rc *RC) {
 	if class != 2 {
 		C.cfg = view("cview")
 		rc.Spawn("initiator", func() {
-			cSess, cErr = xmpp.NewSession(ctx, origin.Domain(), origin, C.conn, init0, mkneg(C))
+			location := origin.Domain()
+			if s2s {
+				location = jid.MustParse("example.net")
+			}
+			cSess, cErr = xmpp.NewSession(ctx, location, origin, C.conn, init0, mkneg(C))
 			cDone = true
 		})
 	}
@@ -264,11 +287,18 @@ func runC01(rc *RC) {
 	rc.Describe("initiator cfg=%v", C.cfg)
 	rc.Describe("receiver cfg=%v", S.cfg)
 	rc.CaseKey = fmt.Sprint(class, ws, init0)
+	if s2s {
+		rc.Fire("s2s-stream")
+	}
 	hdr := func(from, to string) string {
 		if ws {
 			return fmt.Sprintf(`<open xmlns="urn:ietf:params:xml:ns:xmpp-framing" version='1.0' id='sid' from='%s' to='%s'/>`, from, to)
 		}
-		return fmt.Sprintf(`<?xml version='1.0'?><stream:stream xmlns='jabber:client' xmlns:stream='http://etherx.jabber.org/streams' version='1.0' id='sid' from='%s' to='%s'>`, from, to)
+		if s2s && from == origin.String() {
+			// the scripted s2s initiator does not name itself
+			return fmt.Sprintf(`<?xml version='1.0'?><stream:stream xmlns='jabber:server' xmlns:stream='http://etherx.jabber.org/streams' version='1.0' id='sid' to='%s'>`, to)
+		}
+		return fmt.Sprintf(`<?xml version='1.0'?><stream:stream xmlns='%s' xmlns:stream='http://etherx.jabber.org/streams' version='1.0' id='sid' from='%s' to='%s'>`, contentNS, from, to)
 	}
 	featXML := func(fs []fcfg) string {
 		var sb strings.Builder
@@ -425,6 +455,28 @@ func runC01(rc *RC) {
 				}
 			}
 		})
+	}
+	// in a fifth of the runs the caller gives up: the context ends before the call, or after a drawn number of steps -
+	// also exactly between two rounds of negotiation. Whatever comes back then, "established" still means ready (c7).
+	if ch.Chance("faults", 1, 5) {
+		after := 0
+		if ch.Chance("faults", 3, 4) {
+			after = ch.Range("faults", 1, 150)
+		}
+		if after == 0 {
+			cancel()
+			rc.Fire("cancel-before-start")
+		} else {
+			t := rc.Spawn("canceller", func() {
+				start := rc.S.Steps
+				simrt.WaitUntil("cancel:steps", func() bool { return (cDone && sDone) || rc.S.Steps-start >= after })
+				if !(cDone && sDone) {
+					rc.Fire("cancel")
+					simrt.Settle(cancel, "h:cancel")
+				}
+			})
+			t.Daemon = true
+		}
 	}
 	st := rc.S.Run(func() bool { return cDone && sDone }, 60000, 3*time.Minute)
 	_ = st
